@@ -170,6 +170,7 @@ Proof.
   set (st1 := fold_left (implementedBy f w) (cbases w c) st).
   assert (F1 : frame st st1).
   { apply (fold_left_pres frame); [apply frame_refl|apply frame_trans|]. intros; apply IH. }
+  destruct (is_builtin w c); [eapply frame_trans; [exact F1|]; repeat split|].
   destruct (assoc_nat c (st_cprov_of (set_impl st1 c (default_impl w c))));
     (eapply frame_trans; [exact F1|]); repeat split.
 Qed.
@@ -198,6 +199,7 @@ Proof.
     destruct (Nat.eqb k c) eqn:K.
     - apply Nat.eqb_eq in K; subst k. unfold get_impl. rewrite E. reflexivity.
     - apply (F1 k). }
+  destruct (is_builtin w c); [exact F2|].
   destruct (assoc_nat c (st_cprov_of (set_impl st1 c (default_impl w c)))); [exact F2|].
   eapply same_impl_trans; [exact F2|]. apply same_impl_fields. reflexivity.
 Qed.
@@ -263,6 +265,7 @@ Proof.
   { unfold st1. clear st1. generalize (cbases w c). intros l. revert st H.
     induction l as [|x l IHl]; intros st H; cbn [fold_left]; [assumption|]. apply IHl. apply IH; assumption. }
   assert (F2 : impl_inv (set_impl st1 c (default_impl w c))) by (apply impl_inv_set; [assumption|apply good_default]).
+  destruct (is_builtin w c); [exact F2|].
   destruct (assoc_nat c (st_cprov_of (set_impl st1 c (default_impl w c)))); [exact F2|].
   eapply impl_inv_fields; [|exact F2]. reflexivity.
 Qed.
@@ -299,6 +302,11 @@ Proof.
     destruct (get_impl_good w _ c H1) as [G1 _]. split; [assumption|left; reflexivity].
   - unfold class_implements_first. apply ordered_impl_inv. apply implementedBy_impl_inv; assumption.
   - unfold class_provides. eapply impl_inv_fields; [|apply (implementedBy_impl_inv fuel w st c H)]. reflexivity.
+  - unfold class_also_provides, class_provides.
+    eapply impl_inv_fields; [|apply (implementedBy_impl_inv fuel w st c H)]. reflexivity.
+  - unfold class_no_longer_provides, class_provides.
+    eapply impl_inv_fields; [|apply (implementedBy_impl_inv fuel w st c H)]. reflexivity.
+  - apply directly_provides_impl_inv; assumption.
   - apply directly_provides_impl_inv; assumption.
   - apply directly_provides_impl_inv; assumption.
   - eapply impl_inv_fields; [|exact H]. reflexivity.
@@ -468,6 +476,10 @@ Proof.
   - unfold class_implements_first. eapply shrink_trans; [apply frame_shrink, implementedBy_frame|apply ordered_shrink].
   - unfold class_provides. eapply shrink_trans; [apply frame_shrink, implementedBy_frame|].
     apply frame_shrink. repeat split.
+  - unfold class_also_provides, class_provides. eapply shrink_trans; [apply frame_shrink, implementedBy_frame|].
+    apply frame_shrink. repeat split.
+  - unfold class_no_longer_provides, class_provides. eapply shrink_trans; [apply frame_shrink, implementedBy_frame|].
+    apply frame_shrink. repeat split.
 Qed.
 
 Lemma class_ops_shrink fuel w cops : forall st,
@@ -480,6 +492,7 @@ Qed.
 Lemma inst_step_pinv fuel w st x : is_class_op x = false -> pinv st -> pinv (step fuel w st x).
 Proof.
   intros K P. destruct x; cbn [is_class_op] in K; try discriminate; cbn [step].
+  - apply directly_provides_pinv; assumption.
   - apply directly_provides_pinv; assumption.
   - apply directly_provides_pinv; assumption.
   - apply gc_pinv; assumption.
@@ -638,6 +651,7 @@ Proof.
   destruct x; cbn [is_class_op step]; try discriminate; intros _.
   - apply D.
   - apply D.
+  - apply D.
   - apply same_impl_fields. reflexivity.
 Qed.
 
@@ -678,6 +692,7 @@ Lemma inst_step_current fuel w st x :
   is_class_op x = false -> cache_current fuel w st = true -> cache_current fuel w (step fuel w st x) = true.
 Proof.
   destruct x; cbn [is_class_op step]; try discriminate; intros _ CC.
+  - apply directly_provides_current; assumption.
   - apply directly_provides_current; assumption.
   - apply directly_provides_current; assumption.
   - unfold cache_current in *. cbn [gc st_cache st_provs]. rewrite forallb_forall in *.
@@ -776,6 +791,7 @@ Proof.
   { unfold st1. clear st1. generalize (cbases w c). intros l. revert st H.
     induction l as [|x l IHl]; intros st H; cbn [fold_left]; [assumption|]. apply IHl. apply IH; assumption. }
   assert (F2 : cprov_inv (set_impl st1 c (default_impl w c))) by (eapply cprov_inv_fields; [|exact F1]; reflexivity).
+  destruct (is_builtin w c); [exact F2|].
   destruct (assoc_nat c (st_cprov_of (set_impl st1 c (default_impl w c)))); [exact F2|].
   eapply cprov_inv_fields; [|apply (cprov_inv_alloc _ c [] F2)]. reflexivity.
 Qed.
@@ -797,6 +813,14 @@ Proof.
   - eapply cprov_inv_fields; [|apply (implementedBy_cprov_inv fuel w st c H)]. reflexivity.
   - unfold class_provides. eapply cprov_inv_fields;
       [|apply (cprov_inv_alloc _ c is (implementedBy_cprov_inv fuel w st c H))]. reflexivity.
+  - unfold class_also_provides, class_provides. eapply cprov_inv_fields;
+      [|apply (cprov_inv_alloc _ c (class_provided_by fuel w st c ++ is) (implementedBy_cprov_inv fuel w st c H))].
+    reflexivity.
+  - unfold class_no_longer_provides, class_provides. eapply cprov_inv_fields;
+      [|apply (cprov_inv_alloc _ c (minus fuel w (class_provided_by fuel w st c) i)
+                 (implementedBy_cprov_inv fuel w st c H))].
+    reflexivity.
+  - apply directly_provides_cprov_inv; assumption.
   - apply directly_provides_cprov_inv; assumption.
   - apply directly_provides_cprov_inv; assumption.
   - eapply cprov_inv_fields; [|exact H]. reflexivity.
@@ -1046,6 +1070,12 @@ Proof.
   - unfold class_implements_only. apply ordered_current, set_notify_current, implementedBy_current; assumption.
   - unfold class_implements_first. apply ordered_current, implementedBy_current; assumption.
   - unfold class_provides. eapply cache_current_ext; [| | |apply (implementedBy_current fuel w st c H)];
+      try reflexivity. apply same_impl_fields. reflexivity.
+  - unfold class_also_provides, class_provides.
+    eapply cache_current_ext; [| | |apply (implementedBy_current fuel w st c H)];
+      try reflexivity. apply same_impl_fields. reflexivity.
+  - unfold class_no_longer_provides, class_provides.
+    eapply cache_current_ext; [| | |apply (implementedBy_current fuel w st c H)];
       try reflexivity. apply same_impl_fields. reflexivity.
 Qed.
 
